@@ -229,6 +229,51 @@ func r16_2(c *Ctx, rule string) {
 		}
 	}
 	c.R.Check(popped && deferred, rule, c.name(f.copyDir)+"/record-popped", c.P.Pos(f.copyDir.Pos()), "the record is popped by a deferred function", "copyDirectory does not pop its record from copier.parentDirs on exit: later siblings would create this directory as their 'ancestor'")
+	// ... on every exit: once the record is pushed, no success return without
+	// the pop (inline) or the registration of the popping defer (wave 26: an
+	// early return for an empty directory in front of the defer left the
+	// record on the stack and the next createParentDirs created it)
+	popsStack := func(fn *ssa.Function) bool {
+		for _, s := range fieldStoresIn(fn, "copy.copier.parentDirs") {
+			if _, isSlice := s.Val.(*ssa.Slice); isSlice {
+				return true
+			}
+		}
+		return false
+	}
+	isPop := func(in ssa.Instruction) bool {
+		switch t := in.(type) {
+		case *ssa.Defer:
+			switch v := t.Call.Value.(type) {
+			case *ssa.MakeClosure:
+				if cf, ok := v.Fn.(*ssa.Function); ok {
+					return popsStack(cf)
+				}
+			case *ssa.Function:
+				return popsStack(v)
+			}
+		case *ssa.Store:
+			fa, ok := t.Addr.(*ssa.FieldAddr)
+			if ok && eng.FieldOwnerName(fa.X.Type(), fa.Field) == "copy.copier.parentDirs" {
+				_, isSlice := t.Val.(*ssa.Slice)
+				return isSlice
+			}
+		}
+		return false
+	}
+	var push ssa.Instruction
+	for _, b := range f.copyDir.Blocks {
+		for _, in := range b.Instrs {
+			if push == nil && isPush(in) {
+				push = in
+			}
+		}
+	}
+	if push == nil {
+		c.R.Missing(rule, "the push onto copier.parentDirs in copyDirectory")
+		return
+	}
+	c.ObSuccessNeeds(rule, c.name(f.copyDir)+"/record-popped-on-every-exit", f.copyDir, push, nil, isPop, "popping the record pushed on copier.parentDirs (inline, or a defer of the pop registered before the return)")
 }
 
 func r16_3(c *Ctx, rule string) {
